@@ -30,6 +30,7 @@ type Case struct {
 	Knobs   pdffile.Knobs `json:"knobs"`
 	Length  *LengthCase   `json:"length_case,omitempty"`
 	FreeMax bool          `json:"free_generation_65535,omitempty"` // free entries carry generation 65535
+	String  *StringCase   `json:"literal_string,omitempty"`        // strings.go
 }
 
 // LengthCase is a case of the /Length clause.
@@ -608,6 +609,7 @@ func Run(tier string) int {
 		r.DistinctS(fmt.Sprintf("lensweep|%d", L))
 	})
 	r.Dim("length_sweep", fmt.Sprintf("body lengths 0..%d x %v x EOL {LF, CRLF}", maxLen, sweep))
+	rn.literalStrings()
 	r.Dim("length_clause", fmt.Sprintf("%d bodies x %d length defects x %d renderings", len(lengthBodies), len(lengthDefects), len(lk)-1))
 	return r.Finish()
 }
@@ -622,7 +624,9 @@ func Replay(path string) int {
 	r := ev.New("C04", "quick", "model_checking", time.Minute)
 	r.SetReplayMode()
 	rn := &runner{r: r}
-	if cs.Length != nil {
+	if cs.String != nil {
+		rn.stringCase(*cs.String)
+	} else if cs.Length != nil {
 		rn.length(cs.Length.Body, cs.Length.Defect, cs.Knobs)
 	} else {
 		rn.one(cs.Kinds, cs.Actions, cs.Knobs, "replay", cs.FreeMax)
